@@ -96,6 +96,10 @@ _MIN_QUICK = {
     "settings_reassigned:elementary-solver": 90, "settings_reassigned:tolerance": 260,
     "settings_reassigned:max_mda_iter": 160, "settings_reassigned_before_first_execution": 240,
     "settings_reassigned_before_second_execution": 95,
+    # MDASequential whose first stage is built with its own loose tolerance, judged against the sequence's tolerance
+    "sequences_with_a_stage_built_with_its_own_loose_tolerance": 120, "own_tolerance_stage_then:MDANewtonRaphson": 20,
+    "own_tolerance_stage_then:MDAJacobi": 40, "own_tolerance_stage_then:MDAGaussSeidel": 45,
+    "own_tolerance_stage_then:MDAQuasiNewton": 10,
 }
 MIN_COUNTERS = {
     "quick": dict(_MIN_QUICK),
